@@ -472,8 +472,11 @@ def _enum_typed(vals):
   """'int' / 'bool' when every non-None candidate has that exact type (the Enum then type-checks its values), else None."""
   ts = {v[0] for v in vals if v != [0]}
   return {frozenset([3]): 'int', frozenset([2]): 'bool'}.get(frozenset(ts))
-def rel_tags(r, s):
-  """Why a value acceptable to the sender spec tree s may be refused by the receiving spec tree r; [] = every value of s is one of r."""
+def rel_tags(r, s, skip=frozenset()):
+  return [x for x in _rel_tags(r, s, skip) if x not in skip]
+def _rel_tags(r, s, skip):
+  """Why a value acceptable to the sender spec tree s may be refused by the receiving spec tree r; [] = every value of s is one of r.
+  skip: relations to disregard (those an active quirk of is_compatible lets through)."""
   rn, rd, rf = r[-1]; sn, sd, sf = s[-1]
   tags = []
   if rf and not (sf and rd == sd): tags.append('receiver-frozen')
@@ -483,10 +486,10 @@ def rel_tags(r, s):
     if sn and not rn: tags.append('noneable')
     if s[0] == 9:
       for oc in s[1]:
-        t = rel_tags(r, oc)
+        t = rel_tags(r, oc, skip)
         if t: tags.append(t[0]); break
     else:
-      per = [rel_tags(c, s) for c in r[1]]
+      per = [rel_tags(c, s, skip) for c in r[1]]
       if not any(t == [] for t in per):
         known = [t for t in per if t and all(x in LEGACY_TAGS for x in t)]
         best = known[0] if known else (min(per, key=len) if per else ['union-empty'])
@@ -514,20 +517,20 @@ def rel_tags(r, s):
     if r[3]:
       if not s[3]: tags.append('list-max-size-unbounded')
       elif s[3][0] > r[3][0]: tags.append('list-max-size-larger')
-    tags += rel_tags(r[1], s[1])
+    tags += rel_tags(r[1], s[1], skip)
   elif k == 6:
     if _fixed(r):
       if not _fixed(s) or len(r[1]) != len(s[1]): tags.append('tuple-size')
       else:
-        for x, y in zip(r[1], s[1]): tags += rel_tags(x, y)
+        for x, y in zip(r[1], s[1]): tags += rel_tags(x, y, skip)
     elif _fixed(s):
       n = len(s[1])
       if r[2] > n or (r[3] and r[3][0] < n): tags.append('tuple-size')
-      for y in s[1]: tags += rel_tags(r[1][0], y) if r[1] else ['tuple-size']
+      for y in s[1]: tags += rel_tags(r[1][0], y, skip) if r[1] else ['tuple-size']
     else:
       if r[2] > s[2]: tags.append('tuple-min-size')
       if r[3] and (not s[3] or s[3][0] > r[3][0]): tags.append('tuple-max-size')
-      if r[1] and s[1]: tags += rel_tags(r[1][0], s[1][0])
+      if r[1] and s[1]: tags += rel_tags(r[1][0], s[1][0], skip)
   elif k == 7:
     if r[1]:
       if not s[1]: tags.append('dict-sender-without-schema')
@@ -536,7 +539,7 @@ def rel_tags(r, s):
         if any(kk not in rfs for kk in sfs): tags.append('key-undeclared')
         for kk, f in rfs.items():
           if kk not in sfs: tags.append('key-missing')
-          else: tags += rel_tags(f, sfs[kk])
+          else: tags += rel_tags(f, sfs[kk], skip)
   elif k == 8:
     if list(s[1][:len(r[1])]) != list(r[1]): tags.append('class')
   return tags
@@ -1146,6 +1149,29 @@ def field_tree(impl, x, key):
     f = fd.value
   return c04.render(f)
 
+_TQ = None
+def typing_quirks():
+  """The quirk flags of the typing layer (Typing.quirks: C04's open findings about is_compatible), by replaying C04's witnesses."""
+  global _TQ
+  if _TQ is None:
+    flags = []
+    for _, w in c04.QUIRKS:
+      got = []
+      try:
+        c04.oracle_case(w, lambda *a: got.append(a))
+      except Exception:     # pylint: disable=broad-except
+        got.append('raised')
+      flags.append(1 if got else 0)
+    _TQ = flags
+  return list(_TQ)
+def incompatible(t, st):
+  """The field (tree t) refuses a value that carries the spec tree st: my containment rule, minus what an active quirk of is_compatible lets through."""
+  tq = typing_quirks()
+  skip = set()
+  if tq[0]: skip.add('list-min-size')
+  if tq[1]: skip.add('receiver-frozen')
+  return bool(rel_tags(t, st, frozenset(skip)))
+
 def ref_modelled(impl, x, key, y, scope, into_copy=False):
   """y (symbolic) handed to the member-checking container x: True when the model covers what happens (stored as it is, or refused
   by the field), False when the field would bind / complete / re-flag it (answered 'not applicable' on both sides)."""
@@ -1162,6 +1188,11 @@ def ref_modelled(impl, x, key, y, scope, into_copy=False):
     return not t_frozen(t)
   dict_ = isinstance(y, P.Dict)
   ys = impl.spec_of(y)
+  if ys is not None:
+    try:
+      if incompatible(t, c04.render(ys)): return True       # refused: ValueError
+    except c04.Unrenderable:
+      return False
   if t_route(dict_, t):
     b = t_bound(dict_, t)
     if b is None: return ys is None or bool(y.allow_partial) == bool(p)
@@ -1738,7 +1769,9 @@ def run(ctx):
     for sig, what, step in orc.hits:
       ctx.hit(sig, what, dict(case=trlib.to_line(case), step=step, guard=False, snippet=py_snippet(case, False)))
       if sig == NONFIX_SIGNATURE: nonfix = 1
-  quirks = list(base_quirks) + [nonfix]
+  tq = typing_quirks()
+  quirks = list(base_quirks) + [nonfix] + tq
+  ctx.extra['typing_quirk_flags'] = dict(zip([n for n, _ in c04.QUIRKS], tq))
   ctx.extra['quirk_flags'] = dict(copy_drops_missing=quirks[0], stores_non_fixpoint=nonfix)
   # --- cases for the correspondence (model vocabulary; the guard answers 'not applicable' on both sides for the rest)
   cases, kinds, impl_outs = [], [], []
@@ -1762,7 +1795,7 @@ def run(ctx):
     if ctx.thorough or rng.random() < 0.1:
       c[0] = list(quirks); cases.append(c); kinds.append('sweep-by-reference:' + lab.split('/')[0])
   ctx.extra['sweep_by_reference'] = dict(total=len(rsweep) + len(tsweep), run=sum(1 for k in kinds if k.startswith('sweep-by-reference')), exhaustive=bool(ctx.thorough))
-  n = ctx.scale(900, 25000)
+  n = ctx.scale(900, 20000)
   gens = [(TGen(rng, quirks), 'random', 0.6), (TGen(rng, quirks, p_invalid=0.5), 'random-invalid', 0.2),
           (TGen(rng, quirks, focus={D.REBIND, D.DUPDATE, D.LEXTEND, D.LIADD, D.LIMUL, D.DCLEAR, D.LCLEAR, D.DPOP, D.LPOP, D.LDEL}), 'batch-and-removal', 0.2)]
   for g, kind, w in gens:
@@ -1777,7 +1810,7 @@ def run(ctx):
   # and a copy apply twice, __setitem__ once).  The model is run a second time with the flag off (there such a store is an error);
   # where the two model runs part is that point, and the history is compared up to it.  Nothing is cut once the finding is repaired.
   if nonfix:
-    strict = ctx.model_run([[c[0][:-1] + [0]] + c[1:] for c in cases], vm_sample=0)
+    strict = ctx.model_run([[c[0][:1] + [0] + c[0][2:]] + c[1:] for c in cases], vm_sample=0)
     cut = dict(histories=0, at_construction=0, steps_dropped=0)
     for i, (b, b0) in enumerate(zip(model_outs, strict)):
       if b == b0 or not (isinstance(b, list) and len(b) == 3 and isinstance(b0, list) and len(b0) == 3): continue
